@@ -86,6 +86,29 @@ Theorem C15_unique_name : forall E ops b, stores_disjoint (run E (init b) ops).
 Proof. exact unique_name. Qed.
 Print Assumptions C15_unique_name.
 
+(* (5b) the same EXTERNAL transaction never backs two trackers, whatever bytes carry it.  A tracker
+   appears in the ongoing store only by an accepted lock / redeem, under the name of the submitted
+   bytes, and only if that name is neither ongoing nor passed (redeem: nor failed).  Under the
+   oracle hypothesis [ext_canonical] (strict decoding: accepted byte strings of one external
+   transaction are identical — what rlp.DecodeBytes gives; since /repo dec611a the redeem handlers
+   decode strictly too; the seeded lenient decoder C15_6 and the former padded-redeem defect are
+   exactly violations of it, found by the monitor checks 11/12 on the implementation), every
+   accepted encoding of the external transaction of a newly created tracker has that tracker's
+   name, and no live or completed tracker existed under it: with (4) and (5), one external
+   transaction backs at most one live tracker and is minted at most once. *)
+Theorem C15_tracker_created_by : forall E s o s' r n t',
+  step E s o = (s', r) -> ongoing s !! n = None -> ongoing s' !! n = Some t' ->
+  exists a x, (o = Lock a x \/ (o = Redeem a x /\ failed s !! n = None)) /\
+              n = x_name (e_tx E x) /\ t_tx t' = x /\ t_owner t' = a /\ accepted E x /\ passed s !! n = None.
+Proof. exact created_by. Qed.
+Theorem C15_one_tracker_per_external_tx : forall E s o s' r n t',
+  ext_canonical E ->
+  step E s o = (s', r) -> ongoing s !! n = None -> ongoing s' !! n = Some t' ->
+  forall x0, accepted E x0 -> x_ext (e_tx E x0) = x_ext (e_tx E (t_tx t')) ->
+    x_name (e_tx E x0) = n /\ ongoing s !! x_name (e_tx E x0) = None /\ passed s !! x_name (e_tx E x0) = None.
+Proof. exact one_tracker_per_external_tx. Qed.
+Print Assumptions C15_one_tracker_per_external_tx.
+
 (* (6) "to the account that submitted the lock" — FULL statement (since /repo b01fdf0; it was refuted
    before: former finding C15.mint_to_report_locker).  For every state and every operation, lying
    Locker field or not: a mint credits the owner recorded in the ongoing lock tracker, by exactly
@@ -112,13 +135,18 @@ Print Assumptions C15_record_stable.
 
 Definition E0 : env :=
   {| e_wits := [20; 21; 22; 23]%N; e_cap := 1000; e_supply := 99%N;
-     e_tx := fun _ => {| x_name := 1%N; x_lock := Some 100; x_redeem := Some 30 |};
+     e_tx := fun _ => {| x_name := 1%N; x_ext := 1%N; x_lock := Some 100; x_redeem := Some 30 |};
      e_key := fun a => negb (N.eqb a 99%N); e_len20 := fun a => negb (N.eqb a 99%N) |}.
 (* the same with a supply address that is 20 bytes long *)
 Definition E1 : env :=
   {| e_wits := e_wits E0; e_cap := e_cap E0; e_supply := e_supply E0; e_tx := e_tx E0;
      e_key := e_key E0; e_len20 := fun _ => true |}.
 Definition two_honest : list op := [Lock 1%N 1%N; Report 1%N 1%N 20%N 0 true; Report 1%N 1%N 21%N 1 true].
+
+(* the hypothesis is satisfiable (and is what the harness measures): E0 has a single name *)
+Example C15_ext_canonical_nonvacuous : ext_canonical E0.
+Proof. intros x x' _ _ _. reflexivity. Qed.
+
 
 (* regression example (the witness of the former C15_refuted_beneficiary): four recorded witnesses,
    threshold 3; two honest yes-votes; the third witness names account 2 as Locker and crosses the
